@@ -22,7 +22,7 @@ variable {K V : Type} [DecidableEq K]
 
 def holdsBucket (l : L K V) : Option (Nat × Nat) :=
   match l.pc with
-  | .dcChkResizing | .dcChkTable | .dcScan | .dcFn | .dcCommit | .dcUnlock
+  | .dcChkResizing | .dcChkTable | .dcScan | .dcSum | .dcFn | .dcCommit | .dcUnlock
   | .dcUnlockWait | .dcUnlockRetry | .dcUnlockGrow => some (l.tbl, l.bi)
   | .rzCopyDo | .rzCopyUnlock => some (l.rtbl, l.ci)
   | .rgCopy | .rgUnlock => some (l.tbl, l.ri)
@@ -33,11 +33,11 @@ def holdsMu : Pc → Bool
   | _ => false
 
 def isResizer : Pc → Bool
-  | .rzLoadTable | .rzDecide | .rzCopyLock | .rzCopyDo | .rzCopyUnlock | .rzPublish | .rzMuLock | .rzClearFlag => true
+  | .rzLoadTable | .rzDecide | .rzDecideSum | .rzCopyLock | .rzCopyDo | .rzCopyUnlock | .rzPublish | .rzMuLock | .rzClearFlag => true
   | _ => false
 
 def beforeFn : Pc → Bool
-  | .dcFast | .dcLoadTable | .dcLock | .dcChkResizing | .dcChkTable | .dcScan
+  | .dcFast | .dcLoadTable | .dcLock | .dcChkResizing | .dcChkTable | .dcScan | .dcSum
   | .dcUnlockWait | .dcUnlockRetry | .dcUnlockGrow => true
   | _ => false
 
@@ -47,12 +47,12 @@ def afterFn : Pc → Bool
 
 /-- pcs of `doCompute` -/
 def inDc : Pc → Bool
-  | .dcFast | .dcLoadTable | .dcLock | .dcChkResizing | .dcChkTable | .dcScan | .dcFn | .dcCommit
+  | .dcFast | .dcLoadTable | .dcLock | .dcChkResizing | .dcChkTable | .dcScan | .dcSum | .dcFn | .dcCommit
   | .dcUnlock | .dcAddSize | .dcMaybeShrink | .dcUnlockWait | .dcUnlockRetry | .dcUnlockGrow => true
   | _ => false
 
 def inRz : Pc → Bool
-  | .rzFast | .rzCas | .rzLoadTable | .rzDecide | .rzCopyLock | .rzCopyDo | .rzCopyUnlock | .rzPublish
+  | .rzFast | .rzFastSum | .rzCas | .rzLoadTable | .rzDecide | .rzDecideSum | .rzCopyLock | .rzCopyDo | .rzCopyUnlock | .rzPublish
   | .rzMuLock | .rzClearFlag | .rzBroadcast | .rzMuUnlock => true
   | _ => false
 
@@ -67,12 +67,12 @@ def nonDcPc : Pc → Bool
 
 /-- pcs at which `l.tbl` is (or is about to be) used as a lock address -/
 def usesTbl : Pc → Bool
-  | .dcLock | .dcChkResizing | .dcChkTable | .dcScan | .dcFn | .dcCommit | .dcUnlock
+  | .dcLock | .dcChkResizing | .dcChkTable | .dcScan | .dcSum | .dcFn | .dcCommit | .dcUnlock
   | .dcUnlockWait | .dcUnlockRetry | .dcUnlockGrow | .rgLock | .rgCopy | .rgUnlock | .rgVisit => true
   | _ => false
 
 def usesRtbl : Pc → Bool
-  | .rzDecide | .rzCopyLock | .rzCopyDo | .rzCopyUnlock => true
+  | .rzDecide | .rzDecideSum | .rzCopyLock | .rzCopyDo | .rzCopyUnlock => true
   | _ => false
 
 def usesNewT : Pc → Bool
@@ -157,7 +157,7 @@ structure WF (l : L K V) : Prop where
   fastlie : l.pc = .dcFast → (dcFlags l).1 = true
   cm : l.pc = .dcCommit → l.fnCalls = 1 ∧ l.fnres.isSome = true
   le : l.fnCalls ≤ 1
-  lieold : (l.pc = .dcFn ∨ l.pc = .dcCommit) → (dcFlags l).1 = true → l.old = none
+  lieold : (l.pc = .dcSum ∨ l.pc = .dcFn ∨ l.pc = .dcCommit) → (dcFlags l).1 = true → l.old = none
   post : postDc l → PostOK l
 
 def GI (g : G K V) : Prop := (g.resizing = true ↔ g.resizer.isSome) ∧ g.cur < g.ntables
@@ -318,6 +318,7 @@ wf_case wf_dcLock Pc.dcLock
 wf_case wf_dcChkResizing Pc.dcChkResizing
 wf_case wf_dcChkTable Pc.dcChkTable
 wf_case wf_dcScan Pc.dcScan
+wf_case wf_dcSum Pc.dcSum
 wf_case wf_dcFn Pc.dcFn
 wf_case wf_dcCommit Pc.dcCommit
 wf_case wf_dcUnlock Pc.dcUnlock
@@ -329,6 +330,7 @@ wf_case wf_dcUnlockGrow Pc.dcUnlockGrow
 wf_case wf_rzCas Pc.rzCas
 wf_case wf_rzLoadTable Pc.rzLoadTable
 wf_case wf_rzDecide Pc.rzDecide
+wf_case wf_rzDecideSum Pc.rzDecideSum
 wf_case wf_rzCopyLock Pc.rzCopyLock
 wf_case wf_rzCopyDo Pc.rzCopyDo
 wf_case wf_rzCopyUnlock Pc.rzCopyUnlock
@@ -350,9 +352,24 @@ wf_case wf_ret Pc.ret
 theorem wf_rzFast (t : Tid) (g : G K V) (l : L K V) (c : Choice K V) (g' : G K V) (l' : L K V)
     (hl : WF l) (hpc : l.pc = .rzFast) (hs : tstep p t g l c = some (g', l')) : WF l' := by
   simp only [tstep, hpc] at hs
-  split at hs <;> simp only [Option.some.injEq, Prod.mk.injEq] at hs <;> obtain ⟨rfl, rfl⟩ := hs
+  repeat' split at hs
+  all_goals simp only [Option.some.injEq, Prod.mk.injEq] at hs
+  all_goals obtain ⟨rfl, rfl⟩ := hs
   · exact wf_popCont l hl (by simp [hpc, inRz])
-  · obtain ⟨h1, h2, h3, h4, h5, h6, h7, h8, h9, h10, h11, h12, h13⟩ := hl
+  all_goals
+    obtain ⟨h1, h2, h3, h4, h5, h6, h7, h8, h9, h10, h11, h12, h13⟩ := hl
+    (refine ⟨?_, ?_, ?_, ?_, ?_, ?_, ?_, ?_, ?_, ?_, ?_, ?_, ?_⟩) <;>
+      simp_all [inDc, nonDcPc, contsOK, inRz, inWf, beforeFn, postDc, PostOK, opKey_eq, dcFlags_eq]
+
+theorem wf_rzFastSum (t : Tid) (g : G K V) (l : L K V) (c : Choice K V) (g' : G K V) (l' : L K V)
+    (hl : WF l) (hpc : l.pc = .rzFastSum) (hs : tstep p t g l c = some (g', l')) : WF l' := by
+  simp only [tstep, hpc] at hs
+  repeat' split at hs
+  all_goals simp only [Option.some.injEq, Prod.mk.injEq] at hs
+  all_goals obtain ⟨rfl, rfl⟩ := hs
+  case isFalse.isTrue => exact wf_popCont l hl (by simp [hpc, inRz])
+  all_goals
+    obtain ⟨h1, h2, h3, h4, h5, h6, h7, h8, h9, h10, h11, h12, h13⟩ := hl
     (refine ⟨?_, ?_, ?_, ?_, ?_, ?_, ?_, ?_, ?_, ?_, ?_, ?_, ?_⟩) <;>
       simp_all [inDc, nonDcPc, contsOK, inRz, inWf, beforeFn, postDc, PostOK, opKey_eq, dcFlags_eq]
 
@@ -394,6 +411,7 @@ theorem wf_step (t : Tid) (g : G K V) (l : L K V) (c : Choice K V) (g' : G K V) 
   · exact wf_dcChkResizing p t g l c g' l' hl hpc hs
   · exact wf_dcChkTable p t g l c g' l' hl hpc hs
   · exact wf_dcScan p t g l c g' l' hl hpc hs
+  · exact wf_dcSum p t g l c g' l' hl hpc hs
   · exact wf_dcFn p t g l c g' l' hl hpc hs
   · exact wf_dcCommit p t g l c g' l' hl hpc hs
   · exact wf_dcUnlock p t g l c g' l' hl hpc hs
@@ -403,9 +421,11 @@ theorem wf_step (t : Tid) (g : G K V) (l : L K V) (c : Choice K V) (g' : G K V) 
   · exact wf_dcUnlockRetry p t g l c g' l' hl hpc hs
   · exact wf_dcUnlockGrow p t g l c g' l' hl hpc hs
   · exact wf_rzFast p t g l c g' l' hl hpc hs
+  · exact wf_rzFastSum p t g l c g' l' hl hpc hs
   · exact wf_rzCas p t g l c g' l' hl hpc hs
   · exact wf_rzLoadTable p t g l c g' l' hl hpc hs
   · exact wf_rzDecide p t g l c g' l' hl hpc hs
+  · exact wf_rzDecideSum p t g l c g' l' hl hpc hs
   · exact wf_rzCopyLock p t g l c g' l' hl hpc hs
   · exact wf_rzCopyDo p t g l c g' l' hl hpc hs
   · exact wf_rzCopyUnlock p t g l c g' l' hl hpc hs
@@ -438,7 +458,7 @@ local macro "self_tac" : tactic => `(tactic| (
       all_goals simp only [Option.some.injEq, reduceCtorEq, Prod.mk.injEq] at hs
       all_goals obtain ⟨rfl, rfl⟩ := hs
       all_goals (refine ⟨⟨?_, ?_⟩, ⟨?_, ?_, ?_, ?_, ?_, ?_, ?_, ?_, ?_⟩⟩)
-      all_goals simp_all [holdsBucket, holdsMu, isResizer, usesTbl, usesRtbl, usesNewT, setTbl, PTbl.setLock, emptyTbl, callResize, callWait, ite_lock_app]
+      all_goals simp_all [holdsBucket, holdsMu, isResizer, usesTbl, usesRtbl, usesNewT, setTbl, PTbl.setLock, PTbl.addCtr, emptyTbl, callResize, callWait, ite_lock_app]
       all_goals grind))
 
 set_option hygiene false in
@@ -460,6 +480,7 @@ self_case self_dcLock Pc.dcLock
 self_case self_dcChkResizing Pc.dcChkResizing
 self_case self_dcChkTable Pc.dcChkTable
 self_case self_dcScan Pc.dcScan
+self_case self_dcSum Pc.dcSum
 self_case self_dcFn Pc.dcFn
 self_case self_dcCommit Pc.dcCommit
 self_case self_dcUnlock Pc.dcUnlock
@@ -471,6 +492,7 @@ self_case self_dcUnlockGrow Pc.dcUnlockGrow
 self_case self_rzCas Pc.rzCas
 self_case self_rzLoadTable Pc.rzLoadTable
 self_case self_rzDecide Pc.rzDecide
+self_case self_rzDecideSum Pc.rzDecideSum
 self_case self_rzCopyLock Pc.rzCopyLock
 self_case self_rzCopyDo Pc.rzCopyDo
 self_case self_rzCopyUnlock Pc.rzCopyUnlock
@@ -550,9 +572,25 @@ theorem self_rzFast (t : Tid) (g : G K V) (l : L K V) (c : Choice K V) (g' : G K
     (hg : GI g) (hl : LIg t g l) (hpc : l.pc = .rzFast) (hs : tstep p t g l c = some (g', l')) : GI g' ∧ LIg t g' l' := by
   obtain ⟨h1, h2, h3, h4, h5, h6, h7, h8, h9⟩ := hl
   simp only [tstep, hpc] at hs
-  split at hs <;> simp only [Option.some.injEq, Prod.mk.injEq] at hs <;> obtain ⟨rfl, rfl⟩ := hs
+  repeat' split at hs
+  all_goals simp only [Option.some.injEq, Prod.mk.injEq] at hs
+  all_goals obtain ⟨rfl, rfl⟩ := hs
   · apply self_popCont <;> simp_all [holdsBucket, holdsMu, isResizer]
-  · obtain ⟨hg1, hg2⟩ := hg
+  all_goals
+    obtain ⟨hg1, hg2⟩ := hg
+    (refine ⟨⟨?_, ?_⟩, ⟨?_, ?_, ?_, ?_, ?_, ?_, ?_, ?_, ?_⟩⟩) <;>
+      simp_all [holdsBucket, holdsMu, isResizer, usesTbl, usesRtbl, usesNewT]
+
+theorem self_rzFastSum (t : Tid) (g : G K V) (l : L K V) (c : Choice K V) (g' : G K V) (l' : L K V)
+    (hg : GI g) (hl : LIg t g l) (hpc : l.pc = .rzFastSum) (hs : tstep p t g l c = some (g', l')) : GI g' ∧ LIg t g' l' := by
+  obtain ⟨h1, h2, h3, h4, h5, h6, h7, h8, h9⟩ := hl
+  simp only [tstep, hpc] at hs
+  repeat' split at hs
+  all_goals simp only [Option.some.injEq, Prod.mk.injEq] at hs
+  all_goals obtain ⟨rfl, rfl⟩ := hs
+  case isFalse.isTrue => apply self_popCont <;> simp_all [holdsBucket, holdsMu, isResizer]
+  all_goals
+    obtain ⟨hg1, hg2⟩ := hg
     (refine ⟨⟨?_, ?_⟩, ⟨?_, ?_, ?_, ?_, ?_, ?_, ?_, ?_, ?_⟩⟩) <;>
       simp_all [holdsBucket, holdsMu, isResizer, usesTbl, usesRtbl, usesNewT]
 
@@ -584,6 +622,7 @@ theorem self_ok_g (t : Tid) (g : G K V) (l : L K V) (c : Choice K V) (g' : G K V
   · exact self_dcChkResizing p t g l c g' l' hg hl hpc hs
   · exact self_dcChkTable p t g l c g' l' hg hl hpc hs
   · exact self_dcScan p t g l c g' l' hg hl hpc hs
+  · exact self_dcSum p t g l c g' l' hg hl hpc hs
   · exact self_dcFn p t g l c g' l' hg hl hpc hs
   · exact self_dcCommit p t g l c g' l' hg hl hpc hs
   · exact self_dcUnlock p t g l c g' l' hg hl hpc hs
@@ -593,9 +632,11 @@ theorem self_ok_g (t : Tid) (g : G K V) (l : L K V) (c : Choice K V) (g' : G K V
   · exact self_dcUnlockRetry p t g l c g' l' hg hl hpc hs
   · exact self_dcUnlockGrow p t g l c g' l' hg hl hpc hs
   · exact self_rzFast p t g l c g' l' hg hl hpc hs
+  · exact self_rzFastSum p t g l c g' l' hg hl hpc hs
   · exact self_rzCas p t g l c g' l' hg hl hpc hs
   · exact self_rzLoadTable p t g l c g' l' hg hl hpc hs
   · exact self_rzDecide p t g l c g' l' hg hl hpc hs
+  · exact self_rzDecideSum p t g l c g' l' hg hl hpc hs
   · exact self_rzCopyLock p t g l c g' l' hg hl hpc hs
   · exact self_rzCopyDo p t g l c g' l' hg hl hpc hs
   · exact self_rzCopyUnlock p t g l c g' l' hg hl hpc hs
@@ -633,7 +674,7 @@ local macro "other_tac" : tactic => `(tactic| (
       all_goals simp only [Option.some.injEq, reduceCtorEq, Prod.mk.injEq] at hs
       all_goals obtain ⟨rfl, rfl⟩ := hs
       all_goals (refine ⟨?_, ?_, ?_, ?_, ?_, ?_, ?_, ?_, ?_⟩)
-      all_goals (try simp only [setTbl, PTbl.setLock, emptyTbl, ite_lock_app])
+      all_goals (try simp only [setTbl, PTbl.setLock, PTbl.addCtr, emptyTbl, ite_lock_app])
       all_goals grind))
 
 set_option hygiene false in
@@ -660,6 +701,7 @@ other_case other_dcLock Pc.dcLock
 other_case other_dcChkResizing Pc.dcChkResizing
 other_case other_dcChkTable Pc.dcChkTable
 other_case other_dcScan Pc.dcScan
+other_case other_dcSum Pc.dcSum
 other_case other_dcFn Pc.dcFn
 other_case other_dcCommit Pc.dcCommit
 other_case other_dcUnlock Pc.dcUnlock
@@ -669,9 +711,11 @@ other_case other_dcUnlockWait Pc.dcUnlockWait
 other_case other_dcUnlockRetry Pc.dcUnlockRetry
 other_case other_dcUnlockGrow Pc.dcUnlockGrow
 other_case other_rzFast Pc.rzFast
+other_case other_rzFastSum Pc.rzFastSum
 other_case other_rzCas Pc.rzCas
 other_case other_rzLoadTable Pc.rzLoadTable
 other_case other_rzDecide Pc.rzDecide
+other_case other_rzDecideSum Pc.rzDecideSum
 other_case other_rzCopyLock Pc.rzCopyLock
 other_case other_rzCopyDo Pc.rzCopyDo
 other_case other_rzCopyUnlock Pc.rzCopyUnlock
@@ -707,6 +751,7 @@ theorem other_ok_g (t u : Tid) (g : G K V) (l m : L K V) (c : Choice K V) (g' : 
   · exact other_dcChkResizing p t u g l m c g' l' hne hg hl hm hpc hs
   · exact other_dcChkTable p t u g l m c g' l' hne hg hl hm hpc hs
   · exact other_dcScan p t u g l m c g' l' hne hg hl hm hpc hs
+  · exact other_dcSum p t u g l m c g' l' hne hg hl hm hpc hs
   · exact other_dcFn p t u g l m c g' l' hne hg hl hm hpc hs
   · exact other_dcCommit p t u g l m c g' l' hne hg hl hm hpc hs
   · exact other_dcUnlock p t u g l m c g' l' hne hg hl hm hpc hs
@@ -716,9 +761,11 @@ theorem other_ok_g (t u : Tid) (g : G K V) (l m : L K V) (c : Choice K V) (g' : 
   · exact other_dcUnlockRetry p t u g l m c g' l' hne hg hl hm hpc hs
   · exact other_dcUnlockGrow p t u g l m c g' l' hne hg hl hm hpc hs
   · exact other_rzFast p t u g l m c g' l' hne hg hl hm hpc hs
+  · exact other_rzFastSum p t u g l m c g' l' hne hg hl hm hpc hs
   · exact other_rzCas p t u g l m c g' l' hne hg hl hm hpc hs
   · exact other_rzLoadTable p t u g l m c g' l' hne hg hl hm hpc hs
   · exact other_rzDecide p t u g l m c g' l' hne hg hl hm hpc hs
+  · exact other_rzDecideSum p t u g l m c g' l' hne hg hl hm hpc hs
   · exact other_rzCopyLock p t u g l m c g' l' hne hg hl hm hpc hs
   · exact other_rzCopyDo p t u g l m c g' l' hne hg hl hm hpc hs
   · exact other_rzCopyUnlock p t u g l m c g' l' hne hg hl hm hpc hs
@@ -832,6 +879,7 @@ theorem reader_never_blocked (t : Tid) (g : G K V) (l : L K V) (c : Choice K V)
     (hpc : l.pc = .ldTable ∨ l.pc = .szTable ∨ l.pc = .szSum ∨ l.pc = .dcFast ∨ (l.pc = .ldRead ∧ (opKey l).isSome)) :
     (tstep p t g l c).isSome := by
   rcases hpc with e | e | e | e | ⟨e, hk⟩ <;> simp only [tstep, e] <;> try rfl
+  · split <;> rfl
   cases hk' : opKey l with
   | none => simp [hk'] at hk
   | some k =>
